@@ -1091,15 +1091,27 @@ impl rustc_driver::Callbacks for Omir {
         for ldid in tcx.mir_keys(()).iter() {
             let did = ldid.to_def_id();
             let kind = tcx.def_kind(did);
-            if !matches!(kind, DefKind::Fn | DefKind::AssocFn | DefKind::Closure | DefKind::SyntheticCoroutineBody) {
+            let is_const = matches!(
+                kind,
+                DefKind::Const { .. } | DefKind::AssocConst { .. } | DefKind::Static { .. } | DefKind::AnonConst | DefKind::InlineConst
+            );
+            if !is_const
+                && !matches!(kind, DefKind::Fn | DefKind::AssocFn | DefKind::Closure | DefKind::SyntheticCoroutineBody)
+            {
                 continue;
             }
-            let body: &Body<'tcx> = tcx.optimized_mir(did);
+            // constants and statics: their initialiser is a body too (a generic function refers to it by name only)
+            let body: &Body<'tcx> = if is_const { tcx.mir_for_ctfe(did) } else { tcx.optimized_mir(did) };
             let promoted = tcx.promoted_mir(did);
             let mut o: Vec<(&'static str, J)> = Vec::new();
             o.push(("rec", J::s("obody")));
             o.push(("def", J::S(path(tcx, did))));
             o.push(("kind", J::S(format!("{:?}", kind))));
+            if matches!(kind, DefKind::Closure) {
+                // how this closure's type is spelt inside other bodies (`{closure@file:l:c: l:c}`)
+                let t = tcx.type_of(did).instantiate_identity().skip_norm_wip();
+                o.push(("tyname", J::S(tystr(t))));
+            }
             o.push(("ret", J::S(tystr(body.local_decls[RETURN_PLACE].ty))));
             let env = TypingEnv::post_analysis(tcx, did);
             let cx = Cx { tcx, def: *ldid, body, env };
